@@ -38,6 +38,16 @@ TEXT = {
                 "assumed: broadcast delivery to every connection task (channel capacity), see DESIGN.md.",
         "technique": "Lean 4 proof (invariant by induction over operation histories + loop lemmas) + differential correspondence on command histories",
     },
+    "C20": {
+        "level": "Kernel-checked for every script of frames, broadcasts and timer ticks: the observable trace of the connection-task model satisfies the "
+                 "keep-alive predicate P20 (C20_trace): each tick writes exactly one KeepAlive unless KEEP_ALIVE_LIMIT ticks have passed since the last "
+                 "non-keep-alive frame, in which case that tick closes the task; nothing is emitted after the end. Declarative corollaries: closed at tick "
+                 "LIMIT+1 <= 3 of silence (T1), never closed while a real message arrives per interval (T2), one KeepAlive per surviving tick (T3); interval = 120 s "
+                 "from the generated constant. Tied to the real task under tokio's paused clock; P20 is also evaluated on the implementation's trace.",
+        "note": KERNEL + "release of the peer record and reservation on KillReq is the kill step of the manager model (C12). Assumed: tokio interval semantics; "
+                "a blocked socket write starves the timer (runtime behaviour outside the model).",
+        "technique": "Lean 4 proof (trace predicate proved for all scripts by induction, via frame-preservation lemmas) + differential correspondence under a virtual clock",
+    },
     "C07": {
         "level": "Kernel-checked theorems for all field values and all payloads: encode = BEP3 layout (T1), parse(encode m ++ rest) = (m, |encode m|) (T2), "
                  "be32 inverse (T3), bitfield round trip / byte count / bit position for every piece count (T4), id table (T5). The model is tied to the Rust "
